@@ -166,17 +166,31 @@ pub fn gen_soup(tapes: &[Vec<u32>], server: bool) -> RawCase {
     if t.chance(5, 6) {
         script.push(PStep::Barrier);
     }
-    if !server && t.chance(2, 3) {
-        script.push(PStep::WaitStreams(1 + t.below(nreq)));
+    let mut waited = 0usize;
+    if !server && t.chance(3, 4) {
+        waited = 1 + t.below(nreq);
+        script.push(PStep::WaitStreams(waited));
     }
-    // streams the soup talks about: opened by the peer (server under test) or by the endpoint (client under test)
-    let mut streams: Vec<u32> = if server { vec![] } else { (0..nreq as u32).map(|i| 2 * i + 1).collect() };
+    // streams the soup talks about: opened by the peer (server under test) or by the endpoint (client under test;
+    // mostly those it is known to have opened already, sometimes all it ever will)
+    let known = if waited > 0 && t.chance(3, 4) { waited } else { nreq };
+    let mut streams: Vec<u32> = if server { vec![] } else { (0..known as u32).map(|i| 2 * i + 1).collect() };
     let mut next_id: u32 = if server { 1 } else { 2 };
     let n_items = 1 + t.below(28);
     let mut labels: Vec<&'static str> = Vec::new();
+    // how hostile: a conversation that is mostly legal reaches deep states before the one bad element arrives;
+    // a fully hostile one dies on its first frames
+    let hostility = t.weighted(&[4, 3, 3]);
+    labels.push(["hostility-low", "hostility-medium", "hostility-high"][hostility]);
+    let mut_den = [16u32, 6, 3][hostility];
+    let weights: [u32; 14] = match hostility {
+        0 => [8, 7, 3, 6, 4, 2, 2, 0, 2, 1, 0, 1, 0, 0],
+        1 => [7, 6, 4, 5, 3, 2, 3, 1, 2, 1, 1, 2, 1, 1],
+        _ => [7, 6, 4, 4, 3, 2, 3, 3, 2, 2, 2, 2, 2, 1],
+    };
     for _ in 0..n_items {
         let pick_stream = |t: &mut Tape, streams: &Vec<u32>| -> u32 {
-            if streams.is_empty() || t.chance(1, 10) {
+            if streams.is_empty() || t.chance(1, if hostility == 0 { 60 } else { 10 }) {
                 1 + 2 * t.below(6) as u32
             } else if t.chance(2, 3) {
                 *streams.last().unwrap()
@@ -185,7 +199,7 @@ pub fn gen_soup(tapes: &[Vec<u32>], server: bool) -> RawCase {
             }
         };
         // (frame, is it a head-block frame that the reference peer should encode itself when unmutated)
-        let kind = t.weighted(&[7, 6, 4, 4, 3, 2, 3, 3, 2, 2, 2, 2, 2, 1]);
+        let kind = t.weighted(&weights);
         let frame: Frame = match kind {
             0 => {
                 // open a stream: request (peer = client) or promise (peer = server)
@@ -195,17 +209,48 @@ pub fn gen_soup(tapes: &[Vec<u32>], server: bool) -> RawCase {
                 if t.chance(1, 3) {
                     f.push(("content-length", (*t.pick(&["0", "5", "10", "x", "18446744073709551616"])).to_string()));
                 }
-                if t.chance(1, 6) {
+                if t.chance(1, if hostility == 0 { 30 } else { 6 }) {
                     f.push((*t.pick(&["te", "connection", "Upper", ":late", ""]), "x".into()));
                 }
-                if t.chance(1, 8) {
+                if t.chance(1, if hostility == 0 { 40 } else { 8 }) {
                     f.remove(t.below(4));
                 }
+                // (the parent of a promise is one of the streams known before it)
+                let parent = pick_stream(&mut t, &streams);
                 streams.push(id);
                 if server {
                     Frame::Headers { stream: id, end_stream: t.bool(), end_headers: t.chance(7, 8), pad: if t.chance(1, 6) { Some(t.below(20) as u8) } else { None }, prio: if t.chance(1, 6) { Some(Prio { exclusive: t.bool(), dep: if t.bool() { id } else { 0 }, weight: 3 }) } else { None }, frag: block(&f) }
                 } else {
-                    let parent = pick_stream(&mut t, &streams);
+                    if t.chance(1, 2) {
+                        // push story: 1-3 promises, each followed by its pushed response (and sometimes a body) — either
+                        // one after the other, or all promises first and the responses afterwards
+                        let k = 1 + t.below(3);
+                        let promises_first = t.bool();
+                        let mut ids = vec![id];
+                        for _ in 1..k {
+                            ids.push(next_id);
+                            streams.push(next_id);
+                            next_id += 2;
+                        }
+                        let promise = |pid: u32| PStep::Raw(Frame::Push { stream: parent, end_headers: true, pad: None, promised: pid, promised_r: false, frag: block(&[(":method", "GET".to_string()), (":scheme", "https".into()), (":authority", "example.com".into()), (":path", format!("/p/{}", pid))]) }.encode());
+                        if promises_first {
+                            for pid in &ids {
+                                script.push(promise(*pid));
+                            }
+                        }
+                        for pid in &ids {
+                            if !promises_first {
+                                script.push(promise(*pid));
+                            }
+                            let es = t.chance(1, 3);
+                            script.push(PStep::Raw(Frame::Headers { stream: *pid, end_stream: es, end_headers: true, pad: None, prio: None, frag: block(&[(":status", "200".to_string())]) }.encode()));
+                            if !es && t.bool() {
+                                script.push(PStep::Raw(Frame::Data { stream: *pid, end_stream: t.bool(), pad: None, data: vec![0x5a; *t.pick(&[0usize, 10, 1000])] }.encode()));
+                            }
+                        }
+                        labels.push("push-story");
+                        continue;
+                    }
                     Frame::Push { stream: parent, end_headers: t.chance(7, 8), pad: None, promised: id, promised_r: false, frag: block(&f) }
                 }
             }
@@ -250,7 +295,7 @@ pub fn gen_soup(tapes: &[Vec<u32>], server: bool) -> RawCase {
             }
         };
         let bytes = frame.encode();
-        if t.chance(1, 3) {
+        if t.chance(1, mut_den) {
             let (b, l) = mutate(&mut t, bytes, &streams);
             labels.push(l);
             script.push(PStep::Raw(b));
@@ -335,6 +380,9 @@ impl Engine for SoupEngine {
                     hostile = true;
                 }
             }
+        }
+        if e == Side::Client && case.base.ccfg.max_concurrent.map(|m| m <= 3).unwrap_or(false) && item.contains("push-story") {
+            out.label("pushes-over-the-client-limit-attempted");
         }
         if rr.run.panic.is_some() {
             return out;
